@@ -243,7 +243,7 @@ class Predictor:
 def gen_chain(rng, case, ty, pred, max_ops, marking_ok=True):
     ver, carrier = case["ver"], case["carrier"]
     ops = []
-    n = rng.choice([1, 2, 3, 5, 8, 13, max_ops]) if max_ops > 13 else rng.randint(1, max_ops)
+    n = rng.choice([2, 3, 5, 8, 13, 21, max_ops, max_ops]) if max_ops > 13 else rng.randint(1, max_ops)
     n = min(n, max_ops)
     revoked = False
     marks = set()
@@ -306,7 +306,7 @@ def gen_chain(rng, case, ty, pred, max_ops, marking_ok=True):
                 else:
                     op["now2"] = pred.clock(rng)
                 marks = set(op["ms"])
-        elif r < 0.9:
+        elif r < 0.84:
             op = {"op": "revoke", "now": now, "legal": True}
             if not revoked:
                 pred.advance(now)
@@ -480,7 +480,7 @@ def special_cases(run, n):
             init = [["type", J("identity")], ["id", J("identity--" + g.uuid(4))], ["created", ts_value(rng, t0, False)],
                     ["modified", bad], ["revoked", J(False)], ["name", J("n")]]
             case = {"carrier": "dict", "ver": "2.0", "init": init, "ty": "identity", "kind": "odd-timestamp", "allow_custom": False}
-            b = t0 if bad in (J(""), J(None)) else (instant_of_value(bad) or t0)
+            b = t0 if bad in (J(""), J(None)) else int(instant_of_value(bad) or t0)
             case["ops"] = [{"op": "new", "changes": [["name", J("m")]], "now": b + rng.choice(OFFSETS), "allow_custom": None, "legal": None},
                            {"op": "new", "changes": [["modified", J(None)]], "now": b, "allow_custom": None, "legal": None},
                            {"op": "new", "changes": [["modified", rng.choice([J(7), J("x"), DT(b + 5000, None)])]], "now": b, "allow_custom": None, "legal": None}]
@@ -599,6 +599,8 @@ def oracle_case(case, res):
         return out
     state = res["init"]
     cur_text_t = time_of_text(res.get("init_ser"))
+    if cur_text_t is None:
+        cur_text_t = ser(ver, instant_of_value(version_time(state)))
     chain_sers = []
     naive_in = any("dt" in v and v["dt"][1] is None for _, v in case["init"])
 
@@ -664,6 +666,10 @@ def oracle_case(case, res):
             state = new
         else:
             must_refuse = revoked or touches_unmod or locked or (sup_t is not None and old_t is not None and not sup_t > old_t)
+            if op["op"] == "remove_mark":
+                curm = (sget(state, "object_marking_refs") or {"j": []})["j"] or []
+                if curm and not set(op["ms"]) <= set(curm):
+                    must_refuse = True        # MarkingNotFoundError: nothing to remove
             if op.get("legal") is True and not must_refuse and case["kind"] in ("versionable", "unregistered", "sco-dict"):
                 f = FINDING_NAIVE if (naive_in and st["exc"] == "TypeError") else None
                 viol(i, "a legal operation on a versionable %s was refused with %s" % (carrier, st["exc"]), f)
@@ -703,7 +709,7 @@ def run_cases(run, cases, nm, label):
     model = common.coq_eval_lines(label, HEADER, terms, shard=40)
     dis = []
     for (c, r), m in zip(good, model):
-        if canon_marks(r["line"]) != canon_marks(m):
+        if r["line"] != m:
             dis.append({"case": c, "impl": r["line"][:1500], "model": m[:1500]})
     return impl, good, bad, dis
 
